@@ -752,7 +752,135 @@ def run_extra(ctx):
     ctx.anchor("R15.7", "attributed items that write options", n, 25)
 
 
+def r15_8(ctx, prog, crate):
+    """'Each counter kind' means the same thing everywhere: the kind KnownCounterKind::of::<C>() names for a counter type
+    is the kind AnyCounter::new stores for a value of that type (with that value's own count), for every type that
+    implements Counter; known_kind()/count() return the stored kind/count; CounterSet::insert writes the slot of the
+    inserted counter's own kind with that counter's count, and `with` is insert."""
+    from lib.patheval import PathEval
+    A = "counter::any_counter::"
+    of = prog.body(A + "KnownCounterKind::of", crate)
+    new = prog.body(A + "AnyCounter::new", crate)
+    ins = prog.body("counter::collection::CounterSet::insert", crate)
+    wth = prog.body("counter::collection::CounterSet::with", crate)
+    if not ctx.anchor("R15.8", "KnownCounterKind::of, AnyCounter::new, CounterSet::insert/with", sum(1 for x in (of, new, ins, wth) if x), 4):
+        return
+    for b in (of, new, ins, wth):
+        ctx.saw(b)
+    ctypes = sorted(norm(f["self"]) for f in prog.impls(crate) if f["trait"] == "counter::Counter")
+    ctx.anchor("R15.8", "types implementing Counter", len(ctypes), 4)
+
+    def garg_of(body, bb):
+        c = body.call_at(bb)
+        return norm(c.gargs[-1]) if c is not None and c.gargs else None
+
+    # KnownCounterKind::of: type -> kind
+    t_of = {}
+    sums = PathEval(of).run()
+    if ctx.check(bool(sums), "R15.8", ["of", "readable"], "cannot summarise KnownCounterKind::of", of.where(0)):
+        for s in sums:
+            pos = [a for a, p in s.conds if p]
+            if s.ret[0] != "adt" or len(pos) != 1 or pos[0][0] != "bool" or pos[0][1][0] != "site" or not pos[0][1][1].endswith("PartialEq>::eq"):
+                ctx.fail("R15.8", ["of", "path-shape"], "a path of KnownCounterKind::of is not `id == TypeId::of::<T>() => Kind` (%s -> %s)" % (pos, s.ret), of.where(0))
+                continue
+            ids = [x for x in pos[0][1][3] if x[0] == "site" and x[1] == "std::any::TypeId::of"]
+            tys = [garg_of(of, x[2]) for x in ids]
+            subj = [t for t in tys if t and t.endswith("::Counter")]
+            named = [t for t in tys if t and not t.endswith("::Counter")]
+            if ctx.check(len(subj) == 1 and len(named) == 1, "R15.8", ["of", "compares-C::Counter-with-a-counter-type"], "KnownCounterKind::of compares TypeIds of %s" % tys, of.where(0)):
+                t_of[named[0]] = s.ret[2]
+    # AnyCounter::new: type -> constructor -> kind, count of the same cast
+    t_new = {}
+    sums = PathEval(new).run()
+    if ctx.check(bool(sums), "R15.8", ["new", "readable"], "cannot summarise AnyCounter::new", new.where(0)):
+        for s in sums:
+            pos = [a for a, p in s.conds if p and a[0] == "discr" and a[2] == 1]
+            if not pos or s.ret[0] != "site" or not s.ret[1].startswith(A + "AnyCounter::"):
+                ctx.fail("R15.8", ["new", "path-shape"], "a path of AnyCounter::new is not `cast_ref::<T>() is Some => AnyCounter::<ctor>(..)` (%s)" % (s.ret,), new.where(0))
+                continue
+            cast = pos[-1][1]
+            ty = garg_of(new, cast[2]) if cast[0] == "site" and cast[1].endswith("TypeCast::cast_ref") else None
+            ctor = prog.body(s.ret[1], crate)
+            arg = s.ret[3][0] if s.ret[3] else None
+            ok = ty is not None and ctor is not None and arg is not None and arg[0] == "field" and arg[2] == ("count",) and arg[1][0] == "payload" and arg[1][3] == cast
+            if not ctx.check(ok, "R15.8", ["new", ty or "?", "count-of-the-same-cast"], "AnyCounter::new builds the %s counter from %s, expected the count of the value just cast to it" % (ty, arg), new.where(cast[2] if cast[0] == "site" else 0)):
+                continue
+            ctx.saw(ctor)
+            cs = PathEval(ctor).run()
+            kind = None
+            if cs and len(cs) == 1:
+                r = cs[0].ret
+                if r[0] == "site" and r[1] == A + "AnyCounter::known" and len(r[3]) == 2 and r[3][0][0] == "adt" and r[3][1] == ("arg", 1, ()):
+                    kind = r[3][0][2]
+                elif r[0] == "adt":
+                    f = dict(zip(r[4], r[3]))
+                    if f.get("kind", ("?",))[0] == "adt" and f.get("count") == ("arg", 1, ()):
+                        kind = f["kind"][2]
+            if ctx.check(kind is not None, "R15.8", ["new", s.ret[1].rsplit("::", 1)[-1], "constructor"], "`%s` is not `known(<Kind>, count)`" % s.ret[1], ctor.where(0)):
+                t_new[ty] = kind
+    kn = prog.body(A + "AnyCounter::known", crate)
+    if ctx.anchor("R15.8", "AnyCounter::known", 1 if kn else 0, 1):
+        ctx.saw(kn)
+        ks = PathEval(kn).run()
+        r = ks[0].ret if ks and len(ks) == 1 else None
+        f = dict(zip(r[4], r[3])) if r and r[0] == "adt" else {}
+        ctx.check(f.get("kind") == ("arg", 1, ()) and f.get("count") == ("arg", 2, ()), "R15.8", ["known", "stores-its-arguments"], "AnyCounter::known builds %s" % (f,), kn.where(0))
+    ctx.check(sorted(t_of) == ctypes, "R15.8", ["of", "covers-every-counter-type"], "KnownCounterKind::of names a kind for %s; the Counter types are %s" % (sorted(t_of), ctypes), of.where(0))
+    ctx.check(sorted(t_new) == ctypes, "R15.8", ["new", "covers-every-counter-type"], "AnyCounter::new handles %s; the Counter types are %s" % (sorted(t_new), ctypes), new.where(0))
+    for t in ctypes:
+        if t in t_of and t in t_new:
+            ctx.check(t_of[t] == t_new[t], "R15.8", [t.rsplit("::", 1)[-1], "same-kind-in-of-and-new"],
+                      "KnownCounterKind::of::<%s>() is %s but AnyCounter::new stores a %s value as %s" % (t, t_of[t], t, t_new[t]), new.where(0))
+    ctx.check(len(set(t_of.values())) == len(t_of), "R15.8", ["of", "one-kind-per-type"], "two counter types share a kind: %s" % t_of, of.where(0))
+    # getters
+    for fn, field in (("known_kind", "kind"), ("count", "count")):
+        g = prog.body(A + "AnyCounter::" + fn, crate)
+        if ctx.anchor("R15.8", "AnyCounter::" + fn, 1 if g else 0, 1):
+            ctx.saw(g)
+            gs = PathEval(g).run()
+            r = gs[0].ret if gs and len(gs) == 1 else None
+            ctx.check(r == ("arg", 1, (field,)), "R15.8", [fn, "returns-the-stored-" + field], "AnyCounter::%s returns %s, expected self.%s" % (fn, r, field), g.where(0))
+    # insert
+    from lib.symexpr import Sym, show
+    S = Sym(ins, site_args=True)
+    # the slot store, written directly or through `let slot = &mut self.counts[i]; *slot = ..`
+    slot_refs = {s_["p"]["l"]: s_["rv"]["p"] for bi, si, s_ in ins.stmts() if s_["k"] == "assign" and not s_["p"]["proj"] and s_["rv"]["k"] == "ref" and s_["rv"]["mut"] and
+                 s_["rv"]["p"]["l"] == 1 and any(pr["k"] in ("index", "cindex") for pr in s_["rv"]["p"]["proj"])}
+    stores = []
+    for bi, si, s_ in ins.stmts():
+        if s_["k"] != "assign":
+            continue
+        if s_["p"]["l"] == 1 and any(pr["k"] in ("index", "cindex") for pr in s_["p"]["proj"]):
+            stores.append((bi, s_))
+        elif s_["p"]["l"] in slot_refs and [pr["k"] for pr in s_["p"]["proj"]] == ["deref"]:
+            stores.append((bi, dict(s_, p=slot_refs[s_["p"]["l"]])))
+    writes = [s_ for bi, si, s_ in ins.stmts() if s_["k"] == "assign" and s_["p"]["l"] == 1 and s_["p"]["proj"]] + \
+        [s_ for bi, si, s_ in ins.stmts() if s_["k"] == "assign" and s_["p"]["l"] in slot_refs and s_["p"]["proj"]]
+    muts = [c for c in ins.live_calls() if any(a["k"] in ("move", "copy") and (ins.local_ty(a["p"]["l"]) or "").startswith("&mut ") and
+                                                   any(z.kind == "param" and z.label().startswith("param:self") for z in ins.prov.op_src(a)) for a in c.args)]
+    if ctx.check(len(stores) == 1 and len(writes) == 1 and not muts and not ins.loops, "R15.8", ["insert", "one-slot-written"],
+                 "CounterSet::insert writes %d slots, %d places of self in all, and hands self to %s; expected exactly one slot write" % (len(stores), len(writes), [c.callee for c in muts]), ins.where(0)):
+        bi, st = stores[0]
+        pr = [p_ for p_ in st["p"]["proj"] if p_["k"] == "index"]
+        idx = S.local(pr[0]["l"]) if pr else None
+        val = S.rv(st["rv"])
+        newc = ("site", A + "AnyCounter::new")
+        ok_i = idx is not None and idx[0] == "discr" and idx[1][0] == "site" and idx[1][1] == A + "AnyCounter::known_kind" and \
+            len(idx[1][3]) == 1 and str(idx[1][3][0]).count("AnyCounter::new") == 1 and "('arg', 2, ())" in str(idx[1][3][0])
+        ok_v = val is not None and val[0] == "adt" and val[2] == "Some" and val[3] and val[3][0][0] == "site" and val[3][0][1] == A + "AnyCounter::count" and \
+            str(val[3][0][3]).count("AnyCounter::new") == 1 and "('arg', 2, ())" in str(val[3][0][3])
+        ctx.check(ok_i and ok_v and place_fields(st["p"])[:1] == ("counts",) and st["p"]["l"] == 1 and all(ins.dominates(bi, r) for r in ins.returns), "R15.8", ["insert", "own-kind-slot-gets-own-count"],
+                  "CounterSet::insert writes slot [%s] = %s; expected counts[new(counter).known_kind() as usize] = Some(new(counter).count())" % (show(idx) if idx else "?", show(val) if val else "?"), ins.where(bi))
+    sums = PathEval(wth).run()
+    if ctx.check(bool(sums) and len(sums) == 1, "R15.8", ["with", "readable"], "cannot summarise CounterSet::with", wth.where(0)):
+        s = sums[0]
+        cs = [c for c in s.calls if c[0] == "counter::collection::CounterSet::insert"]
+        ctx.check(len(cs) == 1 and len(cs[0][1]) == 2 and "1" in str(cs[0][1][0]) and cs[0][1][1] == ("arg", 2, ()) and "1" in str(s.ret), "R15.8", ["with", "is-insert"],
+                  "CounterSet::with does not insert the given counter into self and return it (calls %s, returns %s)" % ([c[0] for c in s.calls], s.ret), wth.where(0))
+
+
 def run(ctx, prog, crate):
+    r15_8(ctx, prog, crate)
     r15_1(ctx, prog, crate)
     r15_2(ctx, prog, crate)
     r15_3(ctx, prog, crate)
